@@ -270,6 +270,13 @@ def run(ctx: Ctx) -> None:
     ctx.call(update_pinning, "5")
     ctx.call(intersection_rules, "6")
     ctx.call(children_rules, "7")
+    from ..kinds import signature_defaults
+
+    ctx.call(signature_defaults, "7d", {
+        "cartgraph/graph.py:TestGraph.flag_children": {"node_name": "''", "object_name": "''", "worker_name": "''", "flag_type": "'run'", "skip_parents": "False", "skip_children": "False"},
+        "cartgraph/graph.py:TestGraph.flag_intersection": {"flag_type": "'run'", "skip_object_roots": "False", "skip_shared_root": "False"},
+        "cartgraph/graph.py:TestGraph.get_nodes": {"param_key": "'name'", "param_val": "''", "subset": "None", "unique": "False"},
+    }, "flagging defaults: from the shared root over everything, nothing skipped")
     ctx.call(GR.name_forms, "6n")
 
 
